@@ -258,6 +258,14 @@ func (h *Harness) Deliver(s *Stream, d *Dir, skip int, b []byte, start, end bool
 	} else {
 		// weak mode: the start of this direction was not seen before data
 		// was released; track position once it can be located
+		if d.SynData > 0 {
+			// a data-carrying SYN that arrives after a forced release is
+			// outside what the statements cover (start not seen first)
+			if end {
+				x.Ended = true
+			}
+			return
+		}
 		if first && skip == 0 && !x.SynFed && len(b) > 0 {
 			// data without SYN and without "unknown" skip: only legal when the
 			// stream was force-started; not generated by the harness
